@@ -11,6 +11,7 @@ import operator
 import z3
 
 from .core import Unsupported, FAtom, ZAtom, Fld, FldKind, cur
+from .poly import R as _R
 from .sym import (SInt, SBytes, Ratio, zt, bt, sdivmod, spowmod, os2ip_sym, i2osp_sym, implied,
                   bytes_const, BytesSort, IntSort, BV8)
 
@@ -268,8 +269,12 @@ def _type_matches(interp, x, t):
     from .anyval import SAny
     if isinstance(x, SAny):
         return x.isinstance(interp, t)
+    if hasattr(x, "sym_isinstance"):
+        return x.sym_isinstance(interp, t)
     if isinstance(t, TypeMarker):
         if t is IntT:
+            if isinstance(x, Fld):
+                return x.kind.modulus is not None       # an integer, viewed modulo p
             return isinstance(x, (int, SInt)) and not isinstance(x, float)
         if t is BoolT:
             return isinstance(x, (bool, ZAtom, FAtom))
@@ -651,6 +656,8 @@ def host_getattr(interp, o, name):
         if name == "sgn0":
             from .specfn import fld_sgn0
             return fld_sgn0(o)
+        if name in getattr(o.kind, "attrs", {}):
+            return o.kind.attrs[name]
         raise Unsupported(f"attribute {name} of an abstract field element")
     if isinstance(o, FldKind):
         if name == "one":
@@ -735,6 +742,8 @@ def host_getitem(interp, cont, idx):
     IM = I()
     if hasattr(cont, "sym_getitem"):
         return cont.sym_getitem(interp, idx)
+    if isinstance(cont, TypeMarker):
+        return cont                     # typing generics: List[int], Union[...] (annotations are dropped)
     from .anyval import SAny, SymSeq
     if isinstance(cont, SAny):
         cont = cont.as_bytes(interp)
@@ -788,6 +797,9 @@ def host_binop(interp, op, f, a, b):
         a = a.for_binop(interp, op, b, left=True)
     if isinstance(b, SAny):
         b = b.for_binop(interp, op, a, left=False)
+    from .core import PToken
+    if isinstance(b, PToken) and isinstance(op, ast.Mod) and isinstance(a, int) and not isinstance(a, bool):
+        return Fld(_R(a), b.kind, reduced=True)          # literal % p, read modulo p
     # integer true division -> exact quotient object when symbolic
     if isinstance(op, ast.Div) and (isinstance(a, SInt) or isinstance(b, SInt)):
         return Ratio(a, b)
